@@ -97,6 +97,16 @@ func c11Contexts() []c11Ctx {
 			return gen.Chain(x(), gen.StFilter(gen.Not(gen.Paren(gen.And(h, gen.LitJSON("null"))))))
 		}},
 		{"□ == □ || `true`", func(h *gen.Expr) *gen.Expr { return gen.Or(gen.Cmp("==", h, h), gen.LitJSON("true")) }},
+		// a condition that never mentions the element, over a list whose FIRST element is null (a multi-select there is null and
+		// evaluates nothing; on the later elements it evaluates its members)
+		{"nl[?[□]]", func(h *gen.Expr) *gen.Expr { return gen.Chain(gen.LitJSON("[null,1,2]"), gen.StFilter(gen.MultiList(h))) }},
+		{"nl[?{k: □}]", func(h *gen.Expr) *gen.Expr {
+			return gen.Chain(gen.LitJSON("[null,1,2]"), gen.StFilter(gen.MultiHash(keyA("k"), []*gen.Expr{h})))
+		}},
+		{"nl[*].[□]", func(h *gen.Expr) *gen.Expr { return gen.Chain(gen.LitJSON("[null,null,1]"), gen.StListStar(), gen.StMultiList(h)) }},
+		{"nl[?[a, □]].a", func(h *gen.Expr) *gen.Expr {
+			return gen.Chain(gen.LitJSON(`[null,{"a":1}]`), gen.StFilter(gen.MultiList(gen.Field("a"), h)), gen.StField("a"))
+		}},
 		{"merge({k: a}, {k: □})", func(h *gen.Expr) *gen.Expr {
 			return gen.Func("merge", gen.MultiHash(keyA("k"), []*gen.Expr{a()}), gen.MultiHash(keyA("k"), []*gen.Expr{h}))
 		}},
